@@ -2078,6 +2078,14 @@ int user_parser (char *buff) {
 
       last_verb = 0;
 
+      /* the action destructed the command giver: destruct_object() has freed its sentences, s among
+       * them, and there is nobody left to go on parsing for */
+      if (save_command_giver->flags & O_DESTRUCTED)
+        {
+          illegal_sentence_action = save_illegal_sentence_action;
+          return (ret && (ret->type != T_NUMBER || ret->u.number != 0));
+        }
+
       /* was this the right verb? */
       if (ret == 0)
         {
